@@ -18,9 +18,16 @@ META = dict(
     evaluations_counter="cases",
     min={"histories": 200, "serializer:pickle": 20, "serializer:weights_only": 20, "serializer:safetensors": 20,
          "target:same": 20, "target:default": 20, "target:requantize": 20, "loads_compared": 200},
-    anchors=["nn/qmodule.py:QModuleMixin._save_to_state_dict", "nn/qmodule.py:QModuleMixin._load_from_state_dict",
-             "serialization.py:safe_save", "serialization.py:safe_load", "quantize.py:requantize",
-             "tensor/qtensor.py:QTensor.save_to_state_dict"],
+    anchors=["nn/qmodule.py:QModuleMixin._save_to_state_dict",
+             "nn/qmodule.py:QModuleMixin._load_from_state_dict",
+             "serialization.py:safe_save",
+             "serialization.py:safe_load",
+             "quantize.py:requantize",
+             "tensor/qtensor.py:QTensor.save_to_state_dict",
+             "tensor/qbits/qbits.py:QBitsTensor.load_from_state_dict",
+             "tensor/qbytes.py:QBytesTensor.load_from_state_dict",
+             "tensor/qbits/packed.py:PackedTensor.load_from_state_dict",
+             "tensor/qbits/qbits.py:QBitsTensor.optimize"],
     rule="case = one history: build x quantize (6 weight qtypes incl. grouped low-bit, activations None/qint8/qfloat8, "
          "3 dtypes) x (calibrate, with default or disabled streamlining) x (freeze) x state_dict x serializer {pickle, "
          "weights_only, safetensors} x target {same-quantized, default-quantized, requantize()} x forward x state_dict "
